@@ -653,7 +653,11 @@ func runC19(rc *RunCtx) {
 				op(&ct.MsgDisableAttester{From: e.M.AM, Attester: a}, map[bool]string{true: "attester-remove", false: "attester-remove-missing"}[e.M.Attesters[a]])
 			case 8:
 				d := []string{"uusdc", "UUSDC", "uUsdc", "ueure", "uusdc2"}[r.Intn(5)]
-				op(&ct.MsgSetMaxBurnAmountPerMessage{From: e.M.TC, LocalToken: d, Amount: mkInt(big.NewInt(int64(r.Intn(100))))}, "limit-set")
+				if r.Intn(5) == 0 {
+					op(SetMaxAbsentAmount(e.M.TC, d), "limit-set-amount-absent")
+				} else {
+					op(&ct.MsgSetMaxBurnAmountPerMessage{From: e.M.TC, LocalToken: d, Amount: mkInt(big.NewInt(int64(r.Intn(100))))}, "limit-set")
+				}
 			case 9, 10:
 				nonce += uint64(r.Intn(3))
 				in := &InMsg{Version: 0, Src: Domains[r.Intn(len(Domains))], Dst: 4, Nonce: []uint64{nonce, HostileNonces[r.Intn(len(HostileNonces))]}[r.Intn(2)], Sender: Structured32(1), Recipient: Structured32(2), Caller: make([]byte, 32), Body: []byte("r")}
